@@ -1,5 +1,6 @@
 import ErgoVerif.Drive.Util
 import ErgoVerif.Model.Edf
+import ErgoVerif.Model.EdfAlloc
 /-!
 Line protocol of the EDF model (`driver edf`), stateful: configuration lines set the options / registry,
 `enc`/`dec`/`top` lines evaluate the model.
@@ -340,6 +341,10 @@ def step (s : St) (line : String) : St × String :=
        | some bs => (s, showDec (decodeRaw s.opts (fuelFor s bs) bs))
        | none => (s, "none"))
     | _, _ => (s, "bad-op")
+  | ["alloc", h] =>
+    match parseHex? h with
+    | some bs => (s, toString (allocTop s.opts (fuelFor s bs) bs))
+    | none => (s, "bad-op")
   | _ => (s, "bad-op")
 
 def main (h : IO.FS.Stream) : IO Unit := loopState h step ({} : St)
